@@ -246,11 +246,16 @@ class Node:
         self.prop = None      # property answerable for this collection's content
         self.verified = False # read back equal to the model at least once
 
-    def deepcopy(self, memo=None):
+    def deepcopy(self, memo=None, keep_ids=False):
+        """keep_ids=False: a true copy (new object identities, as cp makes);
+        keep_ids=True: the same objects in a cloned model state."""
         memo = {} if memo is None else memo
         if self.id in memo:
             return memo[self.id]
         n = Node(self.kind)
+        if keep_ids:
+            Node._ids[0] -= 1
+            n.id = self.id
         memo[self.id] = n
         n.attrs = dict(self.attrs)
         n.coll = self.coll.copy() if isinstance(self.coll, Coll) else self.coll
@@ -261,7 +266,7 @@ class Node:
         n.verified = self.verified
         for k, l in self.children.items():
             if l[0] == "h":
-                n.children[k] = ("h", l[1].deepcopy(memo))
+                n.children[k] = ("h", l[1].deepcopy(memo, keep_ids))
             else:
                 n.children[k] = l
         return n
@@ -283,7 +288,7 @@ class FS:
     def clone(self):
         memo = {}
         o = FS()
-        o.files = {k: v.deepcopy(memo) for k, v in self.files.items()}
+        o.files = {k: v.deepcopy(memo, keep_ids=True) for k, v in self.files.items()}
         return o
 
     # -- resolution
